@@ -27,6 +27,7 @@ import (
 	"log/slog"
 	"math/rand"
 	"os"
+	"runtime"
 	"sort"
 	"strings"
 	"time"
@@ -419,6 +420,9 @@ type runner struct {
 	maxRep   int
 	seen     map[[12]byte]struct{}
 	infra    error
+	cur      int
+	curRaw   []byte
+	flush    func()
 	withCase map[string]int
 }
 
@@ -546,6 +550,8 @@ func (x *runner) query(sw string, q Query, f *hydrapb.FilterGroup, empty bool, m
 		tt = timestamppb.New(rankTime(q.Tt))
 	}
 	a := answer{hits: []Hit{}, content: map[string]string{}}
+	wd := time.AfterFunc(hangAfter, func() { x.hang(q, many) })
+	defer wd.Stop()
 	var recv func() (*hydrapb.Treasure, *hydrapb.SearchResultMeta, error)
 	if many {
 		st, err := x.c.GetByIndexStreamFromMany(context.Background(), &hydrapb.GetByIndexStreamFromManyRequest{Queries: []*hydrapb.SwampQuery{{
@@ -596,6 +602,47 @@ func (x *runner) query(sw string, q Query, f *hydrapb.FilterGroup, empty bool, m
 		a.content[h.Key] = string(t.GetBytesVal())
 	}
 	return a
+}
+
+// A streamed query does microseconds of work. If one has not finished after hangAfter the driver looks at
+// the goroutine dump: a gateway stream handler parked in a lock / channel / condition wait for that long
+// is a hang of the code under test and is reported as an observation (the case is attached); anything else
+// (handler still running: starved machine) ends the driver with exit code 5 = inconclusive.
+var hangAfter = func() time.Duration {
+	var sec int
+	if fmt.Sscan(os.Getenv("C08_HANG_AFTER_SEC"), &sec); sec > 0 { // self-test of the watchdog only
+		return time.Duration(sec) * time.Second
+	}
+	return 20 * time.Minute
+}()
+
+func (x *runner) hang(q Query, many bool) {
+	buf := make([]byte, 8<<20)
+	buf = buf[:runtime.Stack(buf, true)]
+	blocked := ""
+	for _, g := range strings.Split(string(buf), "\n\n") {
+		if !strings.Contains(g, "gateway.Gateway.GetByIndexStream") {
+			continue
+		}
+		head := g
+		if i := strings.Index(g, "\n"); i > 0 {
+			head = g[:i]
+		}
+		for _, st := range []string{"semacquire", "sync.Mutex.Lock", "sync.RWMutex", "sync.Cond.Wait", "chan receive", "chan send", "select", "sync.WaitGroup.Wait"} {
+			if strings.Contains(head, "["+st) {
+				blocked = g
+			}
+		}
+	}
+	if blocked == "" {
+		fmt.Fprintln(os.Stderr, "error: a query did not finish within", hangAfter, "but no gateway stream handler is parked; goroutines:\n"+string(buf[:min(len(buf), 6000)]))
+		os.Exit(5)
+	}
+	x.out.Encode(report{Type: "mismatch", Case: x.cur, Round: 0, Route: "bucket", Class: "unexplained",
+		Detail: "GetByIndexStream hangs: the stream handler is parked after " + hangAfter.String() + ": " + blocked[:min(len(blocked), 1500)], CaseJSON: x.curRaw})
+	x.out.Encode(map[string]any{"type": "aborted", "case": x.cur})
+	x.flush()
+	os.Exit(0)
 }
 
 func sameHits(a, b []Hit) bool {
@@ -855,11 +902,16 @@ func run(in, out string) error {
 	defer w.Flush()
 	x := &runner{r: r, c: r.GRPC(), rng: rand.New(rand.NewSource(seed)), out: json.NewEncoder(w), maxRep: 3, seen: map[[12]byte]struct{}{}, withCase: map[string]int{},
 		st: stats{DevCount: map[string]int{}, ModeCount: map[string]int{}, KindCount: map[string]int{}}}
+	x.flush = func() { w.Flush() }
 	rd := bufio.NewReaderSize(f, 1<<20)
 	idx := 0
 	for {
 		line, err := rd.ReadBytes('\n')
 		if len(bytes.TrimSpace(line)) > 0 {
+			// progress marker, flushed: if the process dies inside the code under test the runner knows the case
+			x.out.Encode(map[string]any{"type": "begin", "case": idx})
+			w.Flush()
+			x.cur, x.curRaw = idx, bytes.TrimSpace(line)
 			if e := x.runCase(idx, bytes.TrimSpace(line)); e != nil {
 				return e
 			}
